@@ -222,7 +222,8 @@ fn judge(unit: &Value, o: &Obs) -> Judged {
         } else {
             kind = "delivered";
             let biggest = qh.max(qb).max(rh).max(rb);
-            let unlimited_side_hit = biggest > MIB8;
+            // the listed finding concerns an end WITHOUT a configured limit only
+            let unlimited_side_hit = biggest > MIB8 && (lc.is_none() || ls.is_none());
             match &c.result {
                 Ok(Ok(())) => {}
                 Ok(Err(e)) => v.push(("truncated-or-altered".into(), format!("{ctx} {e}"))),
@@ -258,7 +259,7 @@ impl Check for C15 {
         CheckMeta {
             property: "C15",
             level: "exploration",
-            rule: "limit placement {caller, callee, both, neither, both-different} x L in {128, 1024, 65536} x frame {request header, request body, response header, response body} x size {L-1, L, L+1, 2L} (exact bincode frame sizes computed by a reference), called in both directions, one fresh world per case and once all cases in sequence on one connection; with no limit sizes {8MiB-1, 8MiB, 8MiB+1, 16MiB}; distinct = distinct (frame kind, expected refusal site, outcome)".into(),
+            rule: "limit placement {caller, callee, both, neither, both-different} x L in {128, 1024, 65536} x frame {request header, request body, response header, response body} x size {L-1, L, L+1, 2L} (exact bincode frame sizes computed by a reference), called in both directions, one fresh world per case and once all cases in sequence on one connection; with no limit sizes {8MiB-1, 8MiB, 8MiB+1, 16MiB}; with limits above 8 MiB on both ends (8 MiB + 4096; 16 MiB thorough) sizes {8MiB+1, L-1, L, L+1}; distinct = distinct (frame kind, expected refusal site, outcome)".into(),
             assumptions: vec!["frame sizes follow the bincode fixed-int layout (cross-checked by C07)".into()],
             exhaustive: true,
         }
@@ -302,6 +303,28 @@ impl Check for C15 {
                     continue;
                 }
                 u.push(json!({"caller_limit":null,"callee_limit":null,"cases":[[f,n]],"reverse":false}));
+            }
+        }
+        // limits configured ABOVE the codec library's 8 MiB default, on both ends
+        let high: Vec<usize> = match tier {
+            Tier::Quick => vec![MIB8 + 4096],
+            Tier::Thorough => vec![MIB8 + 4096, 2 * MIB8],
+        };
+        for l in high {
+            let cases: Vec<(&str, usize)> = match tier {
+                Tier::Quick => vec![("req_body", MIB8 + 1), ("resp_body", l), ("req_body", l + 1), ("resp_hdr", l)],
+                Tier::Thorough => {
+                    let mut c = vec![];
+                    for f in frames {
+                        for n in [MIB8 + 1, l - 1, l, l + 1] {
+                            c.push((f, n));
+                        }
+                    }
+                    c
+                }
+            };
+            for (f, n) in cases {
+                u.push(json!({"caller_limit":l,"callee_limit":l,"cases":[[f,n]],"reverse":false}));
             }
         }
         u
